@@ -231,3 +231,10 @@ package raftpb
 // the sink of a streamed snapshot: its identification getters have no effect
 //@ iface (s IChunkSink) ShardID
 //@ iface (s IChunkSink) ToReplicaID
+
+// ---------------------------------------------------------------- reference counting of snapshot records
+//@ func (m *Snapshot) Load [C19 C08]
+//@ trusted allocates the reference counter of the record and takes the first reference; index and term untouched
+//@ modifies m.refCount, m.compactor
+//@ func (m *Snapshot) Unref [C19 C08]
+//@ trusted drops a reference (compacts the record's files when it was the last one); the record itself is untouched
